@@ -103,3 +103,58 @@ Qed.
 
 Lemma restamp_refuted : exists now s level, fst s < now /\ fst (upgrade_restamp now s level) = now.
 Proof. exists 100, (0, 2), 8. split; [reflexivity|reflexivity]. Qed.
+
+(* ---- every issuing path, every configuration ---- *)
+Lemma effective_window_bound : forall cfg L p req c now0 now1 now2 nb na,
+  sane L -> 0 <= issued_at c now0 -> 0 <= now1 <= now2 -> now2 < two64 * NS / 4 ->
+  now1 < issued_at c now0 + two64 * NS / 4 ->
+  effective_window cfg L p req c now0 now1 now2 = Some (nb, na) ->
+  nb <= now2 /\ now2 - NS < nb /\
+  na <= now2 + path_limit L p /\
+  (is_certgen p = true ->
+     na <= Z.max nb (issued_at c now0 + maxc L + (now2 - now1)) /\
+     match req with Some r => 0 < r <= maxc L /\ na <= now2 + r | None => True end) /\
+  (is_certgen p = false -> na = nb + path_limit L p).
+Proof.
+  intros cfg L p req c now0 now1 now2 nb na [Hc [Hr Ha]] Hi Hn Hb Hb2.
+  unfold effective_window, effective_duration.
+  destruct p; cbn [is_certgen path_limit].
+  - (* ssh *)
+    destruct (handler_duration (maxc L) req (issued_at c now0) now1) as [d|] eqn:H; [|discriminate].
+    pose proof (ssh_bound _ _ _ _ now2 _ Hc Hi Hn Hb Hb2 H) as S.
+    pose proof (handler_duration_facts _ _ _ _ _ H) as [_ [_ [F _]]].
+    destruct (ssh_window now2 d) as [va vb]. intro E. inversion E; subst nb na; clear E.
+    destruct S as [S1 [S2 [S3 [S4 [S5 S6]]]]].
+    assert (G : now2 - NS < va * NS) by (subst va; unfold NS in *; lia).
+    assert (K : vb * NS <= va * NS \/ (0 <= d /\ vb * NS <= now2 + d /\ vb * NS <= now2 + maxc L /\
+                  vb * NS <= issued_at c now0 + maxc L + (now2 - now1) /\
+                  match req with Some r => vb * NS <= now2 + r | None => True end)).
+    { destruct (Z_lt_le_dec d 0) as [Hd|Hd]; [left; specialize (S6 Hd); unfold NS; lia|right].
+      split; [exact Hd|]. exact (S5 Hd). }
+    split; [lia|]. split; [lia|]. split; [lia|]. split; [|discriminate].
+    intros _. split; [lia|]. destruct req as [r|]; [|exact I]. split; [lia|].
+    destruct K as [K|[_ [_ [_ [_ K]]]]]; lia.
+  - (* x509 *)
+    destruct (handler_duration (maxc L) req (issued_at c now0) now1) as [d|] eqn:H; [|discriminate].
+    pose proof (x509_bound _ _ _ _ now2 _ (proj2 Hn) H) as X.
+    pose proof (handler_duration_facts _ _ _ _ _ H) as [_ [_ [F _]]].
+    unfold x509_window in *. intro E. inversion E; subst nb na; clear E.
+    destruct X as [_ [X2 [X3 X4]]].
+    split; [lia|]. split; [unfold NS; lia|]. split; [lia|]. split; [|discriminate].
+    intros _. split; [lia|]. destruct req as [r|]; [|exact I]. split; lia.
+  - unfold x509_window. intro E. inversion E; subst.
+    split; [lia|]. split; [unfold NS; lia|]. split; [lia|]. split; [discriminate|reflexivity].
+  - unfold x509_window. intro E. inversion E; subst.
+    split; [lia|]. split; [unfold NS; lia|]. split; [lia|]. split; [discriminate|reflexivity].
+  - unfold x509_window. intro E. inversion E; subst.
+    split; [lia|]. split; [unfold NS; lia|]. split; [lia|]. split; [discriminate|reflexivity].
+Qed.
+
+(* nothing depends on the configuration or, outside /certgen/, on the request or the credential *)
+Lemma effective_window_cfg_independent : forall cfg cfg' L p req c now0 now1 now2,
+  effective_window cfg L p req c now0 now1 now2 = effective_window cfg' L p req c now0 now1 now2.
+Proof. reflexivity. Qed.
+Lemma fixed_paths_ignore_request : forall cfg L p req req' c c' now0 now0' now1 now1' now2,
+  is_certgen p = false ->
+  effective_window cfg L p req c now0 now1 now2 = effective_window cfg L p req' c' now0' now1' now2.
+Proof. intros cfg L p; destruct p; intros; try discriminate; reflexivity. Qed.
